@@ -149,25 +149,6 @@ static int remoteNext(MPT_INTERFACE(input) *in, int what)
 			what &= ~POLLHUP;
 		}
 	}
-	if ((what & POLLOUT)
-	    && !(od->con.out.state & (MPT_OUTFLAG(Active) | MPT_OUTFLAG(Received)))
-	    && (buf = od->con.out.buf._buf)
-	    && buf->_used) {
-		const struct sockaddr *addr = 0;
-		uint8_t *base = (void *) (buf + 1);
-		ssize_t len = od->con.out._scurr;
-		
-		if (len) {
-			addr = (const struct sockaddr *) (base + buf->_used - len);
-		}
-		if (sendto(od->con.out.sock._id, base, buf->_used, 0, addr, len) >= 0) {
-			buf->_used = 0;
-			od->con.out._scurr = 0;
-			if (keep < 0) {
-				keep = 0;
-			}
-		}
-	}
 	if (what & POLLHUP) {
 		mpt_outdata_close(&od->con.out);
 		return -2;
